@@ -7,6 +7,7 @@ live Crop object and of a freshly loaded one is compared with the disk truth
 and with the reference model (a set of finished batch ids).
 """
 import os
+import re
 import pickle
 import itertools
 
@@ -33,6 +34,12 @@ ASSUMPTIONS = [
 ]
 
 NAME = "k"
+_TMPNAME = re.compile(r"[0-9a-f]{32}")
+
+
+def _stable(snap):
+    """the tree without left-over temporary files (random names)"""
+    return {k: v for k, v in snap.items() if not _TMPNAME.search(k)}
 
 
 def configs(tier):
@@ -145,6 +152,7 @@ class World:
         fail_ids = sorted({1, B})
         ev += [["fgrow", i] for i in fail_ids]
         ev += [["fcgrow", i] for i in fail_ids]
+        ev += [["ugrow", B]]
         missing = [i for i in ids if i not in finished]
         if missing:
             ev.append(["fgrow_missing", missing[-1]])
@@ -159,7 +167,7 @@ class World:
 
         kind = ev[0]
         vio = []
-        before = fsseam.snapshot(self.d)
+        before = _stable(fsseam.snapshot(self.d))
         new_finished = set(finished)
         tag = kind
 
@@ -167,7 +175,7 @@ class World:
             return "C08|B%d|%s|%s" % (self.B, kind, sym)
 
         def changed():
-            after = fsseam.snapshot(self.d)
+            after = _stable(fsseam.snapshot(self.d))
             return sorted(k for k in set(before) | set(after)
                           if before.get(k, 0) != after.get(k, 0))
 
@@ -245,6 +253,22 @@ class World:
             if bad:
                 vio.append((key("files-changed"),
                             "a grow that raised changed %r" % bad))
+        elif kind == "ugrow":
+            # the function succeeds but its result cannot be written
+            j = ev[1]
+            with xfn.UnpicklableSet([self.batches[j][-1]]), xfn.CallLog():
+                try:
+                    grow(j, crop=self.live, verbosity=0)
+                    raised = False
+                except Exception:
+                    raised = True
+            if not raised:
+                vio.append((key("no-error"), "a grow whose result could not "
+                            "be written did not raise"))
+            bad = changed()
+            if bad:
+                vio.append((key("files-changed"),
+                            "a grow that failed while writing changed %r" % bad))
         elif kind == "delete":
             os.remove(os.path.join(self.d, self.resfile[ev[1]]))
             new_finished.discard(ev[1])
@@ -317,7 +341,8 @@ def build(cfg, hist, d, tier):
 
 
 def canon(w):
-    return "%s|%s" % (fsseam.tree_hash(w.d), w.live_kind)
+    return "%s|%s" % (fsseam.snap_hash(_stable(fsseam.snapshot(w.d))),
+                      w.live_kind)
 
 
 def expand(task):
